@@ -138,6 +138,21 @@ func (c *Ctx) ssaPanicSites(fns map[*ssa.Function]bool) []panicSite {
 							}
 						}
 					}
+				case *ssa.Lookup:
+					// P11: m[k] in its single-value form yields nil for an absent key; a nilable result (pointer, interface,
+					// map, func) that is never compared with nil is a nil dereference waiting for the missing key (round 7)
+					if x.CommaOk || !x.Pos().IsValid() {
+						continue
+					}
+					if _, isMap := x.X.Type().Underlying().(*types.Map); !isMap {
+						continue
+					}
+					switch x.Type().Underlying().(type) {
+					case *types.Pointer, *types.Interface, *types.Map, *types.Signature:
+						if !nilTested(x) {
+							out = append(out, panicSite{"P11", fn, x.Pos(), "single-value lookup in " + mapText(x.X), in})
+						}
+					}
 				case *ssa.MapUpdate:
 					// P8: assignment into a map that is not made in this function
 					nMap++
@@ -353,6 +368,8 @@ func panicKindText(k string) string {
 		return "integer division by a value not known to be non-zero"
 	case "P8":
 		return "assignment into a map not created in this function (panics if it is nil)"
+	case "P11":
+		return "nilable value read from a map with the single-value form (nil for an absent key) and never compared with nil before it is used, stored or handed on"
 	}
 	return k
 }
@@ -390,4 +407,42 @@ func movedReviewed(table reviewed, s panicSite) (why, from string, ok bool) {
 		}
 	}
 	return "", "", false
+}
+
+// nilTested: some referrer of v (through value-preserving wrappers and phis, depth 3) compares it with nil.
+func nilTested(v ssa.Value) bool {
+	seen := map[ssa.Value]bool{}
+	var rec func(v ssa.Value, d int) bool
+	rec = func(v ssa.Value, d int) bool {
+		if d > 3 || seen[v] || v.Referrers() == nil {
+			return false
+		}
+		seen[v] = true
+		for _, r := range *v.Referrers() {
+			switch x := r.(type) {
+			case *ssa.BinOp:
+				if x.Op == token.EQL || x.Op == token.NEQ {
+					for _, o := range []ssa.Value{x.X, x.Y} {
+						if k, ok := o.(*ssa.Const); ok && k.IsNil() {
+							return true
+						}
+					}
+				}
+			case *ssa.Phi:
+				if rec(x, d+1) {
+					return true
+				}
+			case *ssa.ChangeType:
+				if rec(x, d+1) {
+					return true
+				}
+			case *ssa.ChangeInterface:
+				if rec(x, d+1) {
+					return true
+				}
+			}
+		}
+		return false
+	}
+	return rec(v, 0)
 }
